@@ -559,40 +559,24 @@ func runConcShard(jobs []concJob, shard, nshards int, deadline time.Time) {
 		os.Exit(2)
 	}
 	defer env.close()
-	enc := json.NewEncoder(os.Stdout)
-	for i, j := range jobs {
-		if i%nshards != shard {
-			continue
-		}
+	runOne := func(j concJob, all bool, d time.Time) shardResult {
 		if os.Getenv("VERIF_DEBUG") != "" {
-			fmt.Fprintf(os.Stderr, "shard %d: scenario %s\n", shard, j.cs.Name)
+			fmt.Fprintf(os.Stderr, "shard %d: scenario %s all=%v\n", shard, j.cs.Name, all)
 		}
 		sc := env.mkScenario(j.cs, j.lockOnly, j.linear)
 		var st sched.Stats
 		var viols []sched.Violation
 		var err error
-		if j.cs.Bound > 0 {
-			j.all, j.bound = false, j.cs.Bound
-		}
-		if j.all {
-			d := time.Now().Add(j.allCap)
-			if d.After(deadline) {
-				d = deadline
-			}
+		if all {
 			st, viols, err = sched.ExploreAll(sc, d, env.outcomeClassifier())
-			if err == nil && len(viols) == 0 && !st.AllInterleavings {
-				// Too large for the cap: fall back to the preemption bound.
-				j.all = false
-				st, viols, err = sched.Explore(sc, j.bound, deadline, env.outcomeClassifier())
-			}
 		} else {
-			st, viols, err = sched.Explore(sc, j.bound, deadline, env.outcomeClassifier())
+			st, viols, err = sched.Explore(sc, j.bound, d, env.outcomeClassifier())
 		}
 		mode := "rules"
 		if j.lockOnly {
 			mode = "lock-only"
 		}
-		if j.all {
+		if all {
 			mode += "/all-interleavings"
 		}
 		r := shardResult{Scenario: j.cs.Name, Mode: mode, Stats: st, Def: j.cs}
@@ -627,6 +611,57 @@ func runConcShard(jobs []concJob, shard, nshards int, deadline time.Time) {
 		if err != nil {
 			r.Err = err.Error()
 		}
+		return r
+	}
+	var mine []concJob
+	for i, j := range jobs {
+		if i%nshards == shard {
+			if j.cs.Bound > 0 {
+				j.all, j.bound = false, j.cs.Bound
+			}
+			mine = append(mine, j)
+		}
+	}
+	// Pass 1: every scenario gets its guaranteed coverage: all interleavings where that is known to be small (two
+	// threads), the preemption bound elsewhere.
+	results := make([]shardResult, len(mine))
+	var later []int
+	for i, j := range mine {
+		small := j.all && len(j.cs.Threads) == 2
+		if small {
+			d := time.Now().Add(j.allCap)
+			if d.After(deadline) {
+				d = deadline
+			}
+			results[i] = runOne(j, true, d)
+			if results[i].Err == "" && len(results[i].Violations) == 0 && !results[i].Stats.AllInterleavings {
+				results[i] = runOne(j, false, deadline) // too large for the cap after all
+			}
+			continue
+		}
+		results[i] = runOne(j, false, deadline)
+		if j.all && results[i].Err == "" && len(results[i].Violations) == 0 {
+			later = append(later, i)
+		}
+	}
+	// Pass 2 (where requested): with the time that is left, try the larger scenarios without a bound; a completed attempt
+	// replaces the bounded result.
+	for k, i := range later {
+		left := time.Until(deadline)
+		if left <= 0 {
+			break
+		}
+		share := left / time.Duration(len(later)-k)
+		if share > mine[i].allCap {
+			share = mine[i].allCap
+		}
+		r := runOne(mine[i], true, time.Now().Add(share))
+		if r.Err != "" || len(r.Violations) > 0 || r.Stats.AllInterleavings {
+			results[i] = r
+		}
+	}
+	enc := json.NewEncoder(os.Stdout)
+	for _, r := range results {
 		fmt.Print("SHARD-RESULT ")
 		_ = enc.Encode(r)
 	}
